@@ -18,8 +18,8 @@ PROPERTY_ID = 'C17'
 RULE = ('Both front-ends (appv2 + NfdRegister, legacy app) against a scripted forwarder on the virtual loop. Prefixes: 0..4 components of '
         'any type; replies in {200 with body, 200 without body, other status with/without body, Nack, silence, random bytes as content, '
         'truncated ControlResponse, Data failing the digest validator (legacy)}; reply latency in {0,1,3,999,1001 ms}; 1..6 register / '
-        'unregister calls started at the same clock reading; routes declared with @app.route before main_loop and two consecutive '
-        'connections. Oracle: per call exactly one command Interest, strictly decoded: /localhost/nfd/rib/{register|unregister}/'
+        'unregister calls started at the same clock reading; routes declared with @app.route before main_loop - or while the first face.open() (20 ms) is still pending - '
+        'and two consecutive connections; legacy register() with or without a route validator (rejecting / accepting). Oracle: per call exactly one command Interest, strictly decoded: /localhost/nfd/rib/{register|unregister}/'
         '<ControlParameters naming the prefix>, correctly signed in the front-end\'s command format (v2: ApplicationParameters, '
         'DigestSha256 SignatureInfo with time+nonce, signature == SHA-256(signed portion), parameters digest; legacy: timestamp, nonce, '
         'SignatureInfo, SignatureValue components with the digest over the preceding components); result True <=> status 200, every '
